@@ -552,20 +552,28 @@ def run_entity(chk, case):
         for name in props:
             try:
                 old = getattr(ent4, name)
-            except Exception:
-                chk.hit("entity:property-unreadable:%s.%s" % (type(ent4).__name__, name))     # (an accessor that cannot be read at all is no field the sender can set)
-                continue
+            except Exception as e:
+                # the entity offers this field of the content it was composed from, and reading it raises: the content cannot be read back (nor
+                # set) through the entity
+                chk.hit("entity:property-unreadable:%s.%s" % (type(ent4).__name__, name))
+                fails.append(oracle("C10:entity-property-unreadable:%s.%s" % (type(ent4).__name__, name), "complete %s message (seed %d): reading the field %s of the entity "
+                                    "raises %s: %s" % (kind, case["seed"], name, type(e).__name__, str(e)[:120])))
+                break
             if isinstance(old, bool):
                 continue
             if old is None:
                 # a field the sender left unset and sets now: its type comes from the payload schema (same field name)
-                old = {"bytes": b"", "str": "", "int": 0}.get(ftypes.get(name))
+                old = {"bytes": b"", "str": "", "int": 0, "enum": 0, "float": 0.0}.get(ftypes.get(name))
                 if old is None:
                     continue
             if isinstance(old, bytes):
                 new = bytes(r4.randrange(1, 256) for _ in range(max(1, len(old)))) + b"\x01"
             elif isinstance(old, str):
                 new = old + "-set%d" % r4.randrange(100)
+            elif isinstance(old, int) and ftypes.get(name) in ("enum", "enum0"):
+                new = 2 if old == 1 else 1          # (the values the payload's enumeration has)
+            elif isinstance(old, float) or ftypes.get(name) == "float":
+                new = float(old) + 0.25 + r4.randrange(5)
             elif isinstance(old, int):
                 new = old + 1 + r4.randrange(5)
             else:
@@ -573,10 +581,11 @@ def run_entity(chk, case):
             try:
                 setattr(ent4, name, new)
                 now = getattr(ent4, name)
-            except Exception:
+            except Exception as e:
                 chk.hit("entity:property-unwritable:%s.%s" % (type(ent4).__name__, name))
-                ent4 = cls(build_obj(sub, spec), meta) if kind != "conversation" else TextMessageProtocolEntity(body, meta)
-                continue
+                fails.append(oracle("C10:entity-property-unwritable:%s.%s" % (type(ent4).__name__, name), "complete %s message (seed %d): setting the field %s of the entity "
+                                    "to %r raises %s: %s" % (kind, case["seed"], name, new, type(e).__name__, str(e)[:120])))
+                break
             if now != new:
                 fails.append(oracle("C10:entity-setter-lost:%s:%s" % (kind, name), "complete %s message (seed %d): %s set to %r through the entity; the entity itself then shows %r"
                                     % (kind, case["seed"], name, new, now)))
